@@ -1039,6 +1039,9 @@ func (w *world) deepReorgs(res *hx.Result, r *hx.Rng, count int) {
 		}
 		_ = ok1 && ok2
 		res.Count("deep-reorg", fmt.Sprintf("d%d", di), true)
+		if w.progress != "" {
+			res.Write(filepath.Dir(w.progress)) // kept if a later scenario takes the process down
+		}
 	}
 }
 
